@@ -1,12 +1,13 @@
 import SodiumModel.Driver.Common
 import SodiumModel.Driver.C01
 import SodiumModel.Driver.C04
-import SodiumModel.Driver.C06
 import SodiumModel.Spec.Curve25519
 import SodiumModel.Spec.Ed25519
 import SodiumModel.Spec.Scalar25519
 import SodiumModel.Spec.Ristretto255
 import SodiumModel.Spec.H2c
+import SodiumModel.Model.Scalar
+import SodiumModel.Driver.C06
 namespace Sodium.Driver.C05
 open Sodium Sodium.Model Sodium.Driver Sodium.Spec
 
@@ -24,6 +25,31 @@ def beforenm (xc : Bool) (pk sk : Bytes) : Option Bytes :=
   (X25519.scalarmult sk pk).map fun q => if xc then Chacha.hchacha20 (zeros 16) q none else Salsa.hsalsa20 (zeros 16) q none
 
 def decLine := Sodium.Driver.C01.decLine
+
+/-! C07: the glue-code models of `Model/Scalar.lean`, instantiated with the executable specifications
+    of the primitives (sc25519_*, ge25519_*, SHA-2) -/
+
+/-- `(rc, buffer)` of a model function, printed like the harness' `rc_hex` -/
+def rcBuf (r : Int32 × Bytes) : String :=
+  if r.1 != 0 then toString r.1.toInt else s!"0 {toHex r.2}"
+
+def b2i (b : Bool) : Int32 := if b then 1 else 0
+
+/-- the `ge25519_*` primitives as specified in `Spec/Ed25519.lean` -/
+def geSpec : Model.Scalar.GePrims Ed25519.Point where
+  is_canonical p := b2i (Ed25519.isCanonicalY p)
+  frombytes p := match Ed25519.decodeLax p with
+    | none => (-1, Ed25519.identity)
+    | some P => (0, P)
+  is_on_curve P := b2i (Ed25519.isOnCurve P)
+  has_small_order P := b2i (Ed25519.isSmallOrder P)
+  is_on_main_subgroup P := b2i (Ed25519.libsodiumIsOnMainSubgroup P)
+  scalarmult t P := Ed25519.scalarMult (le t) P
+  scalarmult_base t := Ed25519.scalarMult (le t) Ed25519.basePoint
+  p3_tobytes := Ed25519.encode
+
+def h2cAlg (alg : String) : Int32 :=
+  if alg = "256" then Model.Scalar.CORE_H2C_SHA256 else Model.Scalar.CORE_H2C_SHA512
 
 def handle (op : String) (args : List String) : Option String :=
   match op, args with
@@ -71,47 +97,45 @@ def handle (op : String) (args : List String) : Option String :=
     Sodium.Driver.C06.handle op args
   | "sign.pk_to_curve", [pk] => do some (rcHex (Ed25519.pkToCurve25519 (← ofHex pk)))
   | "sign.sk_to_curve", [sk] => do some s!"0 {toHex (Ed25519.skToCurve25519 sha512 ((← ofHex sk).take 32))}"
-  | "ed.valid", [p] => do some (if Ed25519.isValidPoint (← ofHex p) then "1" else "0")
+  | "ed.valid", [p] => do some (toString (Model.Scalar.is_valid_point geSpec (← ofHex p)).toInt)
   | "ri.valid", [p] => do some (if Ristretto.isValidPoint (← ofHex p) then "1" else "0")
   | "ed.add", [p, q] => do some (rcHex (Ed25519.coreAdd (← ofHex p) (← ofHex q)))
   | "ed.sub", [p, q] => do some (rcHex (Ed25519.coreSub (← ofHex p) (← ofHex q)))
   | "ri.add", [p, q] => do some (rcHex (Ristretto.coreAdd (← ofHex p) (← ofHex q)))
   | "ri.sub", [p, q] => do some (rcHex (Ristretto.coreSub (← ofHex p) (← ofHex q)))
-  | "ed.scalarmult", [n, p] => do some (rcHex (Ed25519.scalarmult (← ofHex n) (← ofHex p)))
-  | "ed.scalarmult_noclamp", [n, p] => do some (rcHex (Ed25519.scalarmultNoclamp (← ofHex n) (← ofHex p)))
+  | "ed.scalarmult", [n, p] => do some (rcBuf (Model.Scalar.crypto_scalarmult_ed25519 geSpec [] (← ofHex n) (← ofHex p)))
+  | "ed.scalarmult_noclamp", [n, p] => do some (rcBuf (Model.Scalar.crypto_scalarmult_ed25519_noclamp geSpec [] (← ofHex n) (← ofHex p)))
   | "ri.scalarmult", [n, p] => do some (rcHex (Ristretto.scalarmult (← ofHex n) (← ofHex p)))
-  | "ed.base", [n] => do some (rcHex (Ed25519.scalarmultBase (← ofHex n)))
-  | "ed.base_noclamp", [n] => do some (rcHex (Ed25519.scalarmultBaseNoclamp (← ofHex n)))
+  | "ed.base", [n] => do some (rcBuf (Model.Scalar.crypto_scalarmult_ed25519_base geSpec (← ofHex n)))
+  | "ed.base_noclamp", [n] => do some (rcBuf (Model.Scalar.crypto_scalarmult_ed25519_base_noclamp geSpec (← ofHex n)))
   | "ri.base", [n] => do some (rcHex (Ristretto.scalarmultBase (← ofHex n)))
   | "ed.from_uniform", [r] => do some s!"0 {toHex (H2c.fromUniform (← ofHex r))}"
   | "ri.from_hash", [h] => do some s!"0 {toHex (Ristretto.fromUniform (← ofHex h))}"
   | "ed.from_string", [alg, ro, ctx, msg] => do
     let ctx ← if ctx = "N" then some [] else ofHex ctx
     let msg ← ofHex msg
-    let r := match alg, ro with
-      | "256", "0" => H2c.fromStringSha256 sha256 ctx msg
-      | "256", _ => H2c.fromStringRoSha256 sha256 ctx msg
-      | _, "0" => H2c.fromStringSha512 sha512 ctx msg
-      | _, _ => H2c.fromStringRoSha512 sha512 ctx msg
-    some s!"0 {toHex r}"
+    some (rcBuf (if ro = "0" then Model.Scalar.from_string sha256 sha512 H2c.fromHash64 ctx msg (h2cAlg alg)
+      else Model.Scalar.from_string_ro sha256 sha512 H2c.fromHash64 Ed25519.coreAdd ctx msg (h2cAlg alg)))
   | "ri.from_string", [alg, _ro, ctx, msg] => do
     let ctx ← if ctx = "N" then some [] else ofHex ctx
     let msg ← ofHex msg
-    some s!"0 {toHex (if alg = "256" then H2c.ristrettoFromStringSha256 sha256 ctx msg else H2c.ristrettoFromStringSha512 sha512 ctx msg)}"
+    some (rcBuf (Model.Scalar.ristretto_from_string sha256 sha512 Ristretto.fromUniform ctx msg (h2cAlg alg)))
   | "sc", [o, x] => do
     let x ← ofHex x
     match o with
-    | "reduce" => some s!"0 {toHex (Scalar.reduce64 x)}"
-    | "negate" => some s!"0 {toHex (Scalar.negate x)}"
-    | "complement" => some s!"0 {toHex (Scalar.complement x)}"
-    | "invert" => some s!"{if x.all (· == 0) then "-1" else "0"} {toHex (Scalar.invert x)}"
+    | "reduce" => some s!"0 {toHex (Model.Scalar.scalar_reduce Spec.Scalar.reduce64 x)}"
+    | "negate" => some s!"0 {toHex (Model.Scalar.scalar_negate Spec.Scalar.reduce64 x)}"
+    | "complement" => some s!"0 {toHex (Model.Scalar.scalar_complement Spec.Scalar.reduce64 x)}"
+    | "invert" =>
+      let r := Model.Scalar.scalar_invert Spec.Scalar.invert x
+      some s!"{r.1.toInt} {toHex r.2}"
     | _ => none
   | "sc", [o, x, y] => do
     let x ← ofHex x; let y ← ofHex y
     match o with
-    | "mul" => some s!"0 {toHex (Scalar.mul x y)}"
-    | "add" => some s!"0 {toHex (Scalar.addWrap x y)}"
-    | "sub" => some s!"0 {toHex (Scalar.subWrap x y)}"
+    | "mul" => some s!"0 {toHex (Model.Scalar.scalar_mul Spec.Scalar.mul x y)}"
+    | "add" => some s!"0 {toHex (Model.Scalar.scalar_add Spec.Scalar.reduce64 x y)}"
+    | "sub" => some s!"0 {toHex (Model.Scalar.scalar_sub Spec.Scalar.reduce64 x y)}"
     | _ => none
   | _, _ => none
 
